@@ -232,8 +232,10 @@ LEVEL_NOTE = ('The theorem is about the skeleton semantics (coq/Model/Errlang.v)
               'classification of what happens to each Result) is modelled, not verified; it fails closed (unknown shapes -> Other -> theorem breaks; '
               'unparseable file / macro_rules body calling a propagating method -> translator error -> VIOLATION). Control decisions are an oracle '
               'shared by the fault-free and the faulted run (they do not depend on the Ok value of target calls, which is ()); foreign callees are '
-              'atomic leaves assumed compliant; panics are outside C04; events carry no call arguments (PARTIAL). 19 seeded mutations incl. the two audit demos (cfg(not(test)) helper, fn pointer), `?` in an Option helper and the coordinator seeds C04-A/B; earlier text: 14 seeded mutations (dropped ?, .ok() on one border only, deferred error in '
-              'Text::draw, retry, call after the failure, stroke-only discard, swallowing adapter / trait default / helper / closure / nested fn, '
-              'map_err, continue-after-error) are all reported as VIOLATION, 13 of them with a concrete failing (drawable, stack, k) from the sweep; '
-              'a benign refactor (new propagating helper) stays OK.')
+              'atomic leaves assumed compliant; panics are outside C04; events carry no call arguments (PARTIAL). 20 seeded mutations (dropped ?, .ok() on one border only, deferred error in '
+              'Text::draw, retry, call after the failure, stroke-only discard, swallowing adapter / trait default / helper / closure / nested fn / '
+              'macro_rules body / cfg(not(test)) helper / Option helper with ?, fn pointer, map_err, continue-after-error, coordinator seeds C04-A '
+              'and C04-B) are all reported as VIOLATION with the static side broken, 19 of them also with a concrete failing (drawable, stack, k) '
+              'from the sweep (map_err(|e| e) preserves behaviour); a benign refactor (new propagating helper) stays OK. Per call site: 77 of 79 '
+              'sites are reached by the sweep alone, 2 are unreachable through the public API (translate/errflow/site_coverage.txt).')
 CLAIMED = True
